@@ -521,6 +521,19 @@ def execute(w, op, st, case, step):
     # a fragment argument is consumed: refill its slot with a fresh empty fragment
     for x in consumed:
         if m.kind[x] == 'frag':
+            # the spent fragment still lists the nodes it handed over; taking them off that list (every other time) is the
+            # spent fragment's own business and must not touch their place in the tree (checked by check_world right after)
+            spent = O[x]
+            if step % 2 == 0 and spent is not None and len(spent.childNodes):
+                try:
+                    while len(spent.childNodes):
+                        spent.pop()
+                    st.counters['spent_fragments_emptied'] += 1
+                except common.CaseTimeout:
+                    raise
+                except Exception as e:
+                    fail(st, case, step, op, 'spent-fragment-pop-raises-' + type(e).__name__, repr(e))
+                    return False
             O[x] = w.doc.createDocumentFragment()
     return True
 
@@ -622,6 +635,24 @@ def do_clone(w, op, st, case, step):
         if c is R or c.nodeName != R.nodeName:
             fail(st, case, step, op, 'clone', 'shallow clone is the same object / other name')
             return False
+        # a shallow clone lists the original's children without owning them: editing the clone's list must leave the
+        # original's tree as it is (re-checked by check_world)
+        if step % 2 == 0 and len(c.childNodes):
+            w.in_shallow = True      # (the hook's "children name the receiver as parent" does not apply to a shallow clone, by design)
+            try:
+                if step % 4 == 0:
+                    while len(c.childNodes):
+                        c.pop()
+                else:
+                    c.removeChild(c.childNodes[0])
+                st.counters['shallow_clones_edited'] += 1
+            except common.CaseTimeout:
+                raise
+            except Exception as e:
+                fail(st, case, step, op, 'shallow-clone-edit-raises-' + type(e).__name__, repr(e))
+                return False
+            finally:
+                w.in_shallow = False
         return True      # the original's tree is re-checked by check_world
     try:
         c = R.cloneNode(True)
